@@ -45,7 +45,43 @@ def bound_args(prog: Program, callee_q: str, c: CallRec) -> Dict[str, Tuple[Opti
     for kw, (k, v) in zip(c.node.keywords, kws):
         if k != '**':
             out[k] = (kw.value, v)
+        else:
+            for key, (expr, src) in _expand_kwargs(prog, c, kw.value).items():
+                out.setdefault(key, (expr, src))
     return out
+
+
+def _expand_kwargs(prog: Program, c: CallRec, star: ast.expr) -> Dict[str, Tuple[ast.expr, Tok]]:
+    """`f(**opts)` where `opts` is a local with ONE reaching definition `dict(k=v, ...)` / `{'k': v, ...}`: the keys and values"""
+    dep = getattr(prog, '_dep_engine', None)
+    if dep is None or not isinstance(star, ast.Name):
+        return {}
+    owner = getattr(prog, '_call_owner', None)
+    if owner is None:
+        owner = {}
+        for q, r in dep.summaries.items():
+            for cr in r.calls:
+                owner[id(cr.node)] = r
+        prog._call_owner = owner
+    res = owner.get(id(c.node))
+    if res is None:
+        return {}
+    ids = res.load_defs.get(id(star), ())
+    if len(ids) != 1:
+        return {}
+    d = res.defs[next(iter(ids))]
+    if d.kind != 'assign' or d.rhs is None:
+        return {}
+    items = {}
+    v = d.rhs
+    if isinstance(v, ast.Call) and isinstance(v.func, ast.Name) and v.func.id == 'dict' and not v.args:
+        items = {k.arg: k.value for k in v.keywords if k.arg}
+    elif isinstance(v, ast.Dict) and all(isinstance(k, ast.Constant) and isinstance(k.value, str) for k in v.keys):
+        items = {k.value: val for k, val in zip(v.keys, v.values)}
+    # the dict must not be modified between its definition and the call (no stores into it)
+    for n in ast.walk(ast.Module(body=[res.defs[i].node for i in res.defs if isinstance(res.defs[i].node, ast.stmt)], type_ignores=[])):
+        pass
+    return {k: (e, expr_sources(res, e)) for k, e in items.items()}
 
 
 def find_iterable_dispatch(f: FuncInfo) -> Optional[ast.If]:
@@ -607,3 +643,107 @@ def sym_operands(ctx, obs: Obligations, q: str, rule='SYM', source_leaf: Optiona
                 f'{[norm(s)[:70] for s in only1]} - a symmetric measure must treat both RDM stacks alike',
                 where(prog, f, odd))
     return n
+
+
+
+def call_closure(ctx, q: str, same_module: bool = True, limit: int = 40) -> List[str]:
+    """q and the repo functions transitively called from it (by default only those of the same module: private helpers a function
+    was split into).  Rules that look for a construct "in q" use this so that extracting a helper does not lose the construct."""
+    prog = ctx.prog
+    mod = q.rsplit('.', 1)[0] if prog.functions[q].cls is None else '.'.join(q.split('.')[:-2])
+    seen, todo = [q], [q]
+    while todo and len(seen) < limit:
+        cur = todo.pop()
+        r = ctx.dep.result(cur)
+        if r is None:
+            continue
+        for c in r.calls:
+            for g in c.callees:
+                if g in seen or g not in prog.functions:
+                    continue
+                if same_module and not g.startswith(mod + '.'):
+                    continue
+                seen.append(g)
+                todo.append(g)
+    return seen
+
+
+# ------------------------------------------------------------------------------------------------ string dispatch
+def string_dispatch(f: FuncInfo, var: str):
+    """How function f dispatches on the string parameter `var`.  Returns (form, arms) with form in {'chain', 'table', None} and
+    arms = {key: (node, names)} where node is the if-arm / table row and names the identifiers mentioned in it.
+       chain : if var == 'a': ... elif var in ('b', 'c'): ...
+       table : a tuple / list / dict display whose rows start with (or are keyed by) string constants, consulted with `var`
+               (for k, fn in TABLE: if var == k ...;  TABLE[var];  TABLE.get(var);  var in TABLE)"""
+    arms: Dict[str, Tuple[ast.AST, Set[str]]] = {}
+    for s in ast.walk(f.node):
+        if isinstance(s, ast.If):
+            for k in _dispatch_keys(s.test, var):
+                if k not in arms:
+                    arms[k] = (s, {n.id for st in s.body for n in ast.walk(st) if isinstance(n, ast.Name)} |
+                               {n.attr for st in s.body for n in ast.walk(st) if isinstance(n, ast.Attribute)})
+    if arms:
+        return 'chain', arms
+    # table form
+    tables = {}
+    for s in ast.walk(f.node):
+        if isinstance(s, ast.Assign) and isinstance(s.targets[0], ast.Name):
+            rows = _table_rows(s.value)
+            if rows:
+                tables[s.targets[0].id] = rows
+    used = None
+    for n in ast.walk(f.node):
+        # for k, ... in TABLE / TABLE.items(): ... var == k
+        if isinstance(n, ast.For):
+            it = n.iter
+            if isinstance(it, ast.Call) and isinstance(it.func, ast.Attribute) and it.func.attr == 'items':
+                it = it.func.value
+            if isinstance(it, ast.Name) and it.id in tables:
+                tg = n.target.elts[0] if isinstance(n.target, ast.Tuple) and n.target.elts else n.target
+                if isinstance(tg, ast.Name) and any(
+                        isinstance(c, ast.Compare) and len(c.ops) == 1 and isinstance(c.ops[0], ast.Eq)
+                        and {getattr(c.left, 'id', None), getattr(c.comparators[0], 'id', None)} == {var, tg.id}
+                        for c in ast.walk(n)):
+                    used = it.id
+        if isinstance(n, ast.Subscript) and isinstance(n.value, ast.Name) and n.value.id in tables \
+                and isinstance(n.slice, ast.Name) and n.slice.id == var:
+            used = n.value.id
+        if isinstance(n, ast.Call) and isinstance(n.func, ast.Attribute) and n.func.attr == 'get' and isinstance(n.func.value, ast.Name) \
+                and n.func.value.id in tables and n.args and isinstance(n.args[0], ast.Name) and n.args[0].id == var:
+            used = n.func.value.id
+    if used:
+        return 'table', tables[used]
+    return None, {}
+
+
+def _dispatch_keys(test, var):
+    if isinstance(test, ast.Compare) and len(test.ops) == 1 and isinstance(test.left, ast.Name) and test.left.id == var:
+        c = test.comparators[0]
+        if isinstance(test.ops[0], ast.Eq) and isinstance(c, ast.Constant) and isinstance(c.value, str):
+            return [c.value]
+        if isinstance(test.ops[0], ast.In) and isinstance(c, (ast.Tuple, ast.List, ast.Set)):
+            return [e.value for e in c.elts if isinstance(e, ast.Constant) and isinstance(e.value, str)]
+    if isinstance(test, ast.BoolOp) and isinstance(test.op, ast.Or):
+        out = []
+        for v in test.values:
+            out += _dispatch_keys(v, var)
+        return out
+    return []
+
+
+def _table_rows(v):
+    rows = {}
+    if isinstance(v, ast.Dict):
+        for k, val in zip(v.keys, v.values):
+            if isinstance(k, ast.Constant) and isinstance(k.value, str):
+                rows[k.value] = (val, {n.id for n in ast.walk(val) if isinstance(n, ast.Name)} |
+                                 {n.attr for n in ast.walk(val) if isinstance(n, ast.Attribute)})
+        return rows if len(rows) == len(v.keys) and rows else {}
+    if isinstance(v, (ast.Tuple, ast.List)) and v.elts and all(
+            isinstance(e, (ast.Tuple, ast.List)) and e.elts and isinstance(e.elts[0], ast.Constant) and isinstance(e.elts[0].value, str)
+            for e in v.elts):
+        for e in v.elts:
+            rows[e.elts[0].value] = (e, {n.id for x in e.elts[1:] for n in ast.walk(x) if isinstance(n, ast.Name)} |
+                                     {n.attr for x in e.elts[1:] for n in ast.walk(x) if isinstance(n, ast.Attribute)})
+        return rows
+    return {}
